@@ -213,11 +213,11 @@ EXHAUSTIVE_QUICK = [
     (1, [2, 2], [2, 2], "por", 400), (2, [2, 2], [2, 2], "por", 600), (2, [2, 2], [1, 3], "por", 300),
 ]
 EXHAUSTIVE_THOROUGH = [
-    (1, [1], [1], "all", 10), (1, [2], [2], "all", 10), (2, [2], [2], "all", 400), (2, [2], [1, 1], "all", 20000),
+    (1, [1], [1], "all", 10), (1, [2], [2], "all", 10), (2, [2], [2], "all", 400), (2, [2], [1, 1], "all", 8000),
     (1, [1, 1], [2], "all", 10), (1, [1, 1], [1, 1], "all", 10), (2, [1, 1], [2], "all", 3000),
-    (2, [1, 1], [1, 1], "all", 20000), (2, [2, 1], [3], "por", 2000), (2, [2, 2], [4], "por", 2000),
-    (1, [2, 2], [2, 2], "por", 15000), (2, [2, 2], [2, 2], "por", 15000), (2, [2, 2], [1, 3], "por", 15000),
-    (2, [2, 2], [3, 1], "por", 15000), (2, [1, 2], [2, 1], "por", 15000), (2, [2], [2], "por", 100),
+    (2, [1, 1], [1, 1], "all", 8000), (2, [2, 1], [3], "por", 2000), (2, [2, 2], [4], "por", 2000),
+    (1, [2, 2], [2, 2], "por", 5000), (2, [2, 2], [2, 2], "por", 5000), (2, [2, 2], [1, 3], "por", 5000),
+    (2, [2, 2], [3, 1], "por", 5000), (2, [1, 2], [2, 1], "por", 5000), (2, [2], [2], "por", 100),
 ]
 
 
@@ -383,8 +383,8 @@ def pool_chain_streams(ctx, hexe, dexe, problems):
     rng = ctx.rng
     found = False
     # exhaustive (every maximal schedule of the operation-level model), small configurations
-    pool_exh = [(1, 1, [5], 100), (1, 2, [5, 6], 400), (2, 2, [5, 6], 300 if quick else 5000), (2, 1, [5, 6, 7], 300),
-                (1, 3, [5], 300 if quick else 20000)]
+    pool_exh = [(1, 1, [5], 100), (1, 2, [5, 6], 400), (2, 2, [5, 6], 300 if quick else 3000), (2, 1, [5, 6, 7], 300),
+                (1, 3, [5], 300 if quick else 5000)]
     for cap, w, reqs, limit in pool_exh:
         scheds, status = enum_generic(dexe, "enumpool %d %d %s %d" % (cap, w, fmt_list(reqs), limit))
         if scheds is None:
@@ -396,7 +396,7 @@ def pool_chain_streams(ctx, hexe, dexe, problems):
         if found:
             return found
     chain_exh = [(1, 1, [], 100), (1, 1, [11], 100), (2, 1, [11], 300), (1, 2, [11], 400),
-                 (2, 2, [11, 12], 300 if quick else 30000), (1, 3, [11, 12], 300 if quick else 30000)]
+                 (2, 2, [11, 12], 300 if quick else 6000), (1, 3, [11, 12], 300 if quick else 6000)]
     for b, m, data, limit in chain_exh:
         scheds, status = enum_generic(dexe, "enumchain %d %d %s %d" % (b, m, fmt_list(data), limit))
         if scheds is None:
@@ -408,7 +408,7 @@ def pool_chain_streams(ctx, hexe, dexe, problems):
         if found:
             return found
     # random
-    npool, nchain = (150, 150) if quick else (3000, 3000)
+    npool, nchain = (150, 150) if quick else (1500, 1500)
     cases = []
     for _ in range(npool):
         w = rng.randrange(1, 5)
@@ -531,7 +531,7 @@ def _run(ctx, problems, hexe, priv):
             if found:
                 break
     # 2. random configurations with burst/priority schedules
-    n_small, n_big = (400, 60) if quick else (6000, 1500)
+    n_small, n_big = (400, 60) if quick else (3000, 600)
     for big, n in ((False, n_small), (True, n_big)):
         if found or not hooks:
             break
@@ -550,7 +550,7 @@ def _run(ctx, problems, hexe, priv):
         found = pool_chain_streams(ctx, hexe, dexe, problems) or found
     # 3. free-running perturbed runs (random yields/sleeps at the points), oracle only; also the only mode without hooks
     if not found:
-        n_free = (300 if quick else 5000) if hooks else (1500 if quick else 20000)
+        n_free = (300 if quick else 3000) if hooks else (1500 if quick else 15000)
         cases = [gen_free_case(ctx.rng, ctx.rng.random() < 0.5) for _ in range(n_free)]
         for i in range(0, len(cases), 500):
             found = free_batch(ctx, hexe, cases[i:i + 500], "free") or found
@@ -563,7 +563,7 @@ def _run(ctx, problems, hexe, priv):
             problems.append(lgt)
         else:
             texe = shutil.copy2(texe, os.path.join(priv, "c17_tsan"))
-            cases = [gen_free_case(ctx.rng, True) for _ in range(60 if quick else 1500)]
+            cases = [gen_free_case(ctx.rng, True) for _ in range(60 if quick else 600)]
             found = free_batch(ctx, texe, cases, "tsan", tsan=True) or found
     ctx.cov["rule"] = ("pcq: one case = (capacity, values per producer, Consume counts per consumer, schedule); distinct by op "
                        "line; non-trivial when >= 2 items and >= 2 threads. exhaustive = every maximal schedule of the model "
